@@ -318,6 +318,8 @@ def check(ctx):
     param_type_table_rules(ctx, 'R12')
     param_metadata_rules(ctx, 'R12')
     from .c10 import retransmission_rules
+    from .c10 import header_normalisation_rule
+    header_normalisation_rule(ctx, 'R14')      # the answer must match the pending pattern, or the write is repeated after later ones (shared with C10.R8)
     retransmission_rules(ctx, 'R14', 'R14', 'R14')      # an answered write is never transmitted again (an old value after a newer one): retry decided under the send lock (shared with C10.R1/R2/R5)
     generation_switch_rules(ctx, 'R3')      # index width: Param, its updater and the table fetcher switch generation at the same version (shared with C03.R5)
 
